@@ -582,12 +582,38 @@ def run(ctx):
         'abbreviation after : or -, with no call, (), fewer / as many / more arguments than the keyword has, comma- or space-'
         'separated numbers, units, colours, strings, nested calls, followed through the same cache dict (same dict, equal copy, '
         'Config object, other options / other snippet table, no cache) by the same keyword with fewer or no arguments (one '
-        '(call with arguments, probe) family per keyword + random histories of 1..6 calls).  The calls with a global '
+        '(call with arguments, probe) family per keyword + random histories of 1..6 calls); EQUAL ARGUMENTS IN ANOTHER KEY '
+        'ORDER, NAMES THAT DIFFER ONLY IN LETTER CASE (harness/history_routes.py): the call made through an equal (==) configuration '
+        'whose mappings -- the dict itself, snippets, options and their nested tables (markup.attributes, markup.valuePrefix, '
+        'stylesheet.unitAliases), variables, context attributes, the sections of a private global configuration -- were built in '
+        'another key order (via "reorder": reversed and three fixed permutations), transient, or kept by the caller as a second '
+        'dict / Config object, sharing one cache dict with the original, with other options on the same cache, without cache; '
+        'user stylesheet and markup snippet tables and variable tables holding names that differ only in letter case (Foo/foo, '
+        'BOX/box/Box, next to and over built-in names), named by abbreviations as written / lower / upper / capitalised / '
+        'swapped, alone, with a value, in + and > chains (per table ordered (cache-filling call, probe) pairs + random '
+        'histories of 1..6 calls); THE TWO-STEP ROUTE ("op": parse / stringify): ONE caller-owned tree from '
+        'emmet.markup_abbreviation / stylesheet_abbreviation written out 1..5 times with stringify_markup / stringify_stylesheet, '
+        'with the configuration it was parsed with (same Config object, same dict, equal copy, reordered copy), with a preview '
+        'configuration (other output options, other syntax), around ordinary expand() calls of the same and other abbreviations, '
+        're-parsed, parse raising (then nothing to write); trees whose elements carry every attribute shape the writers treat '
+        'specially (class, doubled class shorthand, id, quoted / unquoted / empty / boolean / implied values, fields in values and '
+        'text, numbering, repeats, href, self-closing, implicit names, BEM shorthands) under html, xml, xsl, jsx, vue, svelte, pug, '
+        'haml, slim and the options that rewrite names or values on output (markup.attributes, markup.valuePrefix, jsx.enabled, '
+        'tag / attribute case, quotes, compact booleans, self-closing style, reversed attributes, comments, BEM, tabstop fields, '
+        'unformatted output); stylesheet trees (numbers, units, colours, gradients, function calls, user snippets, !important) '
+        '(one fixed family per configuration + random histories of 3..8 calls).  The calls with a global '
         'configuration are judged by the oracle and the state tie only (the pipeline models take a resolved configuration '
-        'without global layers); a fixed share of the function-call histories goes through the stylesheet pipeline model.  Oracle per call: result = result of the same call alone in a pristine process (forked from a '
+        'without global layers); a fixed share of the function-call histories and of the reordered / case-variant histories goes '
+        'through the stylesheet pipeline model (a reordered call is an equal copy to the models); histories with two-step calls '
+        'are judged by the oracle only (the history state machine has expand steps only).  Oracle per call: result = result of the same call alone in a pristine process (forked from a '
         'server that imported emmet and never called it; a sample is re-checked against really fresh interpreters), = '
         'result without cache; caller dicts/Config objects deep-equal before/after; module state of emmet.* unchanged; '
-        'no emmet instance stays alive (gc: support, not proof).  non-trivial = a history in which one cache dict is used '
+        'no emmet instance stays alive (gc: support, not proof); a call through a reordered configuration = the same call with '
+        'the mappings in the written order (both pristine); write-out number n of a caller-owned tree = the same tree parsed and '
+        'written out once in a pristine process, and parse + one write-out with one configuration = expand() of it (pristine); weak '
+        'containers of emmet.* are judged when the caller has dropped its trees (their entries are keyed by nodes the caller holds).  '
+        'non-trivial = a tree written out twice or more, or a reordered configuration whose tables hold names differing only in '
+        'letter case, or a history in which one cache dict is used '
         'by configurations with different snippets or options, or a call raises on a configuration with text, or one global '
         'configuration object that defines a key on both levels is passed with calls of two or more syntaxes; distinct by content.')
     ctx.cov['partial_clause'] = ('"keeps no per-call data alive" is a statement about the CPython heap: the model covers the '
